@@ -18,9 +18,33 @@ import (
 
 const verifDir = "/verif"
 
+// altRepoFlags: with VERIF_REPO=<dir> the library is taken from <dir> instead of /repo
+// (used to run the checks against a scratch worktree with a seeded change, without
+// touching /repo): an alternative go.mod with the replace directive rewritten.
+var altModDir string
+
+func goFlags() string {
+	alt := os.Getenv("VERIF_REPO")
+	if alt == "" || alt == "/repo" {
+		return "-mod=mod"
+	}
+	if altModDir == "" {
+		dir, err := os.MkdirTemp("", "gosym-mod-")
+		if err != nil {
+			panic(err)
+		}
+		mod, _ := os.ReadFile(verifDir + "/go.mod")
+		sum, _ := os.ReadFile(verifDir + "/go.sum")
+		os.WriteFile(dir+"/go.mod", []byte(strings.Replace(string(mod), "=> /repo", "=> "+alt, 1)), 0o644)
+		os.WriteFile(dir+"/go.sum", sum, 0o644)
+		altModDir = dir
+	}
+	return "-mod=mod -modfile=" + altModDir + "/go.mod"
+}
+
 func loadProgram() (*Program, time.Duration) {
 	t0 := time.Now()
-	os.Setenv("GOFLAGS", "-mod=mod")
+	os.Setenv("GOFLAGS", goFlags())
 	os.Setenv("GOPROXY", "off")
 	os.Setenv("GOSUMDB", "off")
 	os.Setenv("GOTOOLCHAIN", "local")
